@@ -134,6 +134,17 @@ def binopOk (op : BinOp) (ty a b : Ty) : Bool :=
   | .less | .greater | .lessEq | .greaterEq => tyBeq a b && tyBeq ty .bool && (isNumeric a || tyBeq a .string)
   | .eq | .notEq => tyBeq a b && tyBeq ty .bool
 
+/-- `Self` in a trait method signature (the typer writes it as a struct type of that name) -/
+def isSelf : Ty → Bool
+  | .struct n => n == "Self"
+  | _ => false
+
+def selfTo (self : Ty) (t : Ty) : Ty := if isSelf t then self else t
+
+def replaceSelf (self : Ty) : Ty → Ty
+  | .func ps r => .func (ps.map (selfTo self)) (selfTo self r)
+  | t => selfTo self t
+
 /-- signature of trait method `tr::m` with `Self := self` -/
 def methodTy (S : Sig) (tr m : String) (self : Ty) : Option Ty :=
   match S.traits.find? (·.name == tr) with
@@ -142,12 +153,6 @@ def methodTy (S : Sig) (tr m : String) (self : Ty) : Option Ty :=
     match lookupTy d.methods m with
     | none => none
     | some t => some (replaceSelf self t)
-where
-  replaceSelf (self : Ty) : Ty → Ty
-    | .struct "Self" => self
-    | .func ps r => .func (ps.map fun p => match p with | .struct "Self" => self | p => p)
-        (match r with | .struct "Self" => self | r => r)
-    | t => t
 
 def check (b : Bool) (msg : String) : List String := if b then [] else [msg]
 
@@ -309,6 +314,43 @@ def errsArms (S : Sig) (Γ : TyEnv) (st rt : Ty) : List Arm → List String
      | .tag _ ty => checkEq ty st "arm:tag-type"
      | _ => ["arm:head"]) ++
     errs S Γ body ++ checkEq (getTy body) rt "arm:body-type" ++ errsArms S Γ st rt rest
+end
+
+def substParamTys (σ : Subst) : List (String × Ty) → List (String × Ty)
+  | [] => []
+  | (x, t) :: rest => (x, substTy σ t) :: substParamTys σ rest
+
+mutual
+/-- `substExpr`: the type substitution applied to every annotation of an expression (what `mono_expr`
+does apart from renaming calls) -/
+def substE (σ : Subst) : Expr → Expr
+  | .var x ty => .var x (substTy σ ty)
+  | .prim p => .prim p
+  | .tag i ty => .tag i (substTy σ ty)
+  | .constr c ty args => .constr c (substTy σ ty) (substEs σ args)
+  | .tuple ty items => .tuple (substTy σ ty) (substEs σ items)
+  | .array ty items => .array (substTy σ ty) (substEs σ items)
+  | .closure ty ps body => .closure (substTy σ ty) (substParamTys σ ps) (substE σ body)
+  | .letE x v b => .letE x (substE σ v) (substE σ b)
+  | .matchE ty s arms none => .matchE (substTy σ ty) (substE σ s) (substAs σ arms) none
+  | .matchE ty s arms (some d) => .matchE (substTy σ ty) (substE σ s) (substAs σ arms) (some (substE σ d))
+  | .ite c t e => .ite (substE σ c) (substE σ t) (substE σ e)
+  | .while c b => .while (substE σ c) (substE σ b)
+  | .go e => .go (substE σ e)
+  | .cget c idx ty e => .cget c idx (substTy σ ty) (substE σ e)
+  | .un op ty e => .un op (substTy σ ty) (substE σ e)
+  | .bin op ty l r => .bin op (substTy σ ty) (substE σ l) (substE σ r)
+  | .call ty f args => .call (substTy σ ty) (substE σ f) (substEs σ args)
+  | .toDyn tr forTy ty e => .toDyn tr (substTy σ forTy) (substTy σ ty) (substE σ e)
+  | .dynCall tr m ty recv args => .dynCall tr m (substTy σ ty) (substE σ recv) (substEs σ args)
+  | .traitCall tr m ty recv args => .traitCall tr m (substTy σ ty) (substE σ recv) (substEs σ args)
+  | .proj idx ty e => .proj idx (substTy σ ty) (substE σ e)
+def substEs (σ : Subst) : List Expr → List Expr
+  | [] => []
+  | e :: es => substE σ e :: substEs σ es
+def substAs (σ : Subst) : List Arm → List Arm
+  | [] => []
+  | .mk l b :: rest => .mk (substE σ l) (substE σ b) :: substAs σ rest
 end
 
 def wt (S : Sig) (Γ : TyEnv) (e : Expr) : Bool := (errs S Γ e).isEmpty
